@@ -437,7 +437,7 @@ func (pw *PgWorld) applyStreamFaults(s *stream, conns []*SimConn) {
 			continue
 		}
 		switch f.Kind {
-		case "corrupt-payload", "tiny-length", "ones-field":
+		case "corrupt-payload", "tiny-length", "ones-field", "truncate-message":
 			if s.name == "client->proxy-c" && pw.delivered[s.name] == 1 && !pw.mysql {
 				// the startup message has no type byte: its own length field is set to 4..8 (the protocol
 				// version stays) and the message is cut accordingly
@@ -452,6 +452,8 @@ func (pw *PgWorld) applyStreamFaults(s *stream, conns []*SimConn) {
 				tiny = int(f.Arg) % 4
 			} else if f.Kind == "ones-field" {
 				tiny = -2
+			} else if f.Kind == "truncate-message" {
+				tiny = 100 + int(f.Arg>>20)%48
 			}
 			hit := false
 			if pw.mysql {
